@@ -129,6 +129,9 @@ func (u *PacketUnderlay) Close() error {
 	// Unblock any pending I/O before closing sessions.
 	u.conn.SetReadDeadline(time.Now())
 	u.baseUnderlay.Close()
+	// The event loop may have re-armed its read timeout while the sessions
+	// were closing. Unblock it again now that the underlay is done.
+	u.conn.SetReadDeadline(time.Now())
 	return nil
 }
 
@@ -388,6 +391,13 @@ func (u *PacketUnderlay) readOneSegment() (*segment, net.Addr, error) {
 		// Use the largest possible value here to avoid error.
 		b := make([]byte, 1500)
 		common.SetReadTimeout(u.conn, readOneSegmentTimeout)
+		select {
+		case <-u.done:
+			// Close() sets its last deadline after closing u.done. Do not
+			// wait for the timeout that was just armed.
+			return nil, nil, io.ErrClosedPipe
+		default:
+		}
 		n, addr, err := u.conn.ReadFrom(b)
 		if err != nil {
 			if stderror.IsTimeout(err) {
